@@ -158,6 +158,66 @@ func hugeWorkload(count map[string]int) *Workload {
 	}
 }
 
+// longInputWorkload: one array of 110-160 thousand elements through a trace
+// program in which some pattern rule executes `next` (directly, under if, in a
+// function, in a loop) for every element: whatever a completed rule, next or
+// call leaves behind per element accumulates over a long input.
+func longInputWorkload(count map[string]int) *Workload {
+	return &Workload{
+		Name:  "long-inputs",
+		Count: func(tier string) int { return count[tier] },
+		Gen: func(i int, t *Tape, tier string) any {
+			c := genStreamCase(t, streamGenOpts{mode: "c02", maxFiles: 1, maxVals: 2, selectors: false, benign: true, sigProb: 0})
+			if len(c.Files) == 0 {
+				c.Files = []SimFile{{Name: "long.json"}}
+			}
+			n := 110000 + t.Draw(50000)
+			var sb strings.Builder
+			sb.WriteString("[")
+			for k := 0; k < n; k++ {
+				if k > 0 {
+					sb.WriteString(",")
+				}
+				sb.WriteString(fmt.Sprint(k % 1000))
+			}
+			sb.WriteString("]\n")
+			c.Files[0].Data = append(QBytes(sb.String()), c.Files[0].Data...)
+			c.Files[0].Sched = nil
+			// every pattern rule with a body gets an unconditional signal placement drawn anew
+			via := []string{"", "if", "func", "func2", "forin", "while", "match", "forpost", "whilecond"}[t.Draw(9)]
+			hasPattern := false
+			for k := range c.Prog.Rules {
+				r := &c.Prog.Rules[k]
+				if r.Kind == "PATTERN" && !r.NoBody {
+					hasPattern = true
+					r.Pat = nil
+					r.Sig = &Sig{What: "next", Pos: []string{"before", "after"}[t.Draw(2)], Via: via}
+				}
+			}
+			if !hasPattern {
+				c.Prog.Rules = append([]TRule{{Kind: "PATTERN", Tag: "rL", Sig: &Sig{What: "next", Pos: "after", Via: via}}}, c.Prog.Rules...)
+				hasFlag := false
+				for _, r := range c.Prog.Rules {
+					if r.SetFlag {
+						hasFlag = true
+					}
+				}
+				if !hasFlag {
+					c.Prog.Rules = append(c.Prog.Rules, TRule{Kind: "BEGINFILE", Tag: "rF", SetFlag: true})
+				}
+			}
+			fixNoBody(c.Prog)
+			c.ProgText = c.Prog.Render()
+			sanitizeSelectors(c)
+			return c
+		},
+		Run:         func(c any, keep bool) Outcome { return runStreamCase(c.(*StreamCase), keep) },
+		New:         func() any { return &StreamCase{} },
+		NoRecheck:   true,
+		ShrinkEvals: 40,
+	}
+}
+
 var streamComponents = map[string][]string{
 	"real":      {"jqawk lexer, parser, evaluator, prototypes, runtime (lang.EvalProgram)", "encoding/json Decoder", "Go runtime"},
 	"simulated": {"io.Reader of every input file (SimReader: chunking, zero reads, EOF placement, I/O error, truncation, corruption, stray text)", "stdout io.Writer (SimWriter with global event numbers)"},
@@ -178,6 +238,7 @@ func registerStream() {
 		Components: streamComponents,
 		Workloads: []*Workload{
 			streamWorkload("schedule", map[string]int{"quick": 400000, "thorough": 8000000}, streamGenOpts{mode: "c02", maxFiles: 3, maxVals: 6, selectors: true, benign: true, sigProb: 35}),
+			longInputWorkload(map[string]int{"quick": 16, "thorough": 400}),
 		},
 	})
 	allFaults := []string{"TRUNC", "EIO", "CORRUPT", "STRAY"}
